@@ -316,23 +316,26 @@ type Loop struct {
 }
 
 type Frame struct {
-	ex       *Exec
-	fn       *ssa.Function
-	vals     map[ssa.Value]Val
-	parent   *Frame
-	depth    int
-	defers   []*deferRec
-	rets     []Exit
-	panics   []Exit
-	loops    map[*ssa.BasicBlock]*Loop
-	cur      string
-	st       *State
-	top      bool
-	callOrd  map[ssa.Instruction]int
-	iters    map[*ssa.Range]*IterInfo
-	loopCtx  map[*ssa.BasicBlock]*LoopCtx
-	dbg      map[string][]*ssa.DebugRef
-	lastSort *sortInfo
+	ex        *Exec
+	fn        *ssa.Function
+	vals      map[ssa.Value]Val
+	parent    *Frame
+	depth     int
+	defers    []*deferRec
+	rets      []Exit
+	panics    []Exit
+	loops     map[*ssa.BasicBlock]*Loop
+	cur       string
+	st        *State
+	top       bool
+	callOrd   map[ssa.Instruction]int
+	iters     map[*ssa.Range]*IterInfo
+	loopCtx   map[*ssa.BasicBlock]*LoopCtx
+	stepEdges []stepEdge
+	headSt    map[*ssa.BasicBlock]*State           // state at the head of the current iteration (step clauses)
+	headPhi   map[*ssa.BasicBlock]map[*ssa.Phi]Val // loop-carried values at the head of the current iteration
+	dbg       map[string][]*ssa.DebugRef
+	lastSort  *sortInfo
 }
 
 type bout struct {
@@ -600,6 +603,9 @@ func (fr *Frame) run(entryReach string, st *State) {
 			}
 		}
 	}
+	if fr.top && len(fr.stepEdges) > 0 {
+		fr.flushSteps()
+	}
 }
 
 func predIndex(b, p *ssa.BasicBlock) int {
@@ -843,7 +849,47 @@ func (fr *Frame) enterLoop(l *Loop, phis []*ssa.Phi, phiEntry map[*ssa.Phi]Val) 
 	if containsStr(written, allocKey) {
 		fr.assume(mkApp(">=", ex.get(fr.st, allocKey, SInt), ex.get(stLoopEntry, allocKey, SInt)))
 	}
+	envH.loop.Prev = prevVars(phiH)
 	fr.loopCtx[l.head] = envH.loop
+	if fr.top && ex.fc != nil && len(ex.fc.LoopStep[l.ord]) > 0 {
+		if fr.headSt == nil {
+			fr.headSt = map[*ssa.BasicBlock]*State{}
+			fr.headPhi = map[*ssa.BasicBlock]map[*ssa.Phi]Val{}
+		}
+		fr.headSt[l.head] = fr.st.clone()
+		fr.headPhi[l.head] = phiH
+	}
+}
+
+func prevVars(phi map[*ssa.Phi]Val) map[string]TV {
+	out := map[string]TV{}
+	for ph, v := range phi {
+		if ph.Comment != "" && ph.Comment != "rangeindex" {
+			out[ph.Comment] = TV{V: v, T: ph.Type()}
+		}
+	}
+	return out
+}
+
+// stepObligations: 'loop N step' clauses relate the state at the head of the current iteration
+// (old(e)) to the state at a back edge or at a return reached after passing the head.
+func (fr *Frame) stepObligations(l *Loop, phiVals map[*ssa.Phi]Val, cond, where string, pos string, cur map[string]TV) {
+	ex := fr.ex
+	if !fr.top || ex.fc == nil || fr.headSt == nil || fr.headSt[l.head] == nil {
+		return
+	}
+	for _, c := range ex.fc.LoopStep[l.ord] {
+		env := fr.loopEnv(l, phiVals, fr.st)
+		env.old = fr.headSt[l.head]
+		env.loop.Prev = prevVars(fr.headPhi[l.head])
+		for n, tv := range cur {
+			if _, isParam := env.vars[n]; !isParam {
+				env.loop.Vars[n] = tv
+			}
+		}
+		g := fr.evalClause(env, c)
+		ex.addOblig(where, fmt.Sprintf("%d.%s", l.ord, c.Label), pos, mkImp(cond, g), c.Src)
+	}
 }
 
 func containsStr(xs []string, s string) bool {
@@ -906,18 +952,118 @@ func (fr *Frame) backEdge(from, head *ssa.BasicBlock, cond string) {
 	for i, g := range fr.autoInvariants(l, phiVals, fr.st) {
 		ex.addOblig("inv-keep", fmt.Sprintf("%d.auto%d", l.ord, i), ex.prog.pos(blockPos(head)), mkImp(cond, g), "auto")
 	}
+	if fr.top && ex.fc != nil && len(ex.fc.LoopStep[l.ord]) > 0 {
+		// step clauses are checked once per loop on the merged back edges (flushSteps)
+		fr.stepEdges = append(fr.stepEdges, stepEdge{l: l, cond: cond, st: fr.st.clone(), phi: phiVals})
+	}
 	for _, cd := range fr.candidatesTop(l, phiVals, fr.st) {
 		ex.addOblig("cand", cd.name+"@keep", ex.prog.pos(blockPos(head)), mkImp(cond, cd.term), "inferred candidate")
 	}
 }
 
+type stepEdge struct {
+	l    *Loop
+	cond string
+	st   *State
+	phi  map[*ssa.Phi]Val
+}
+
+// flushSteps emits the step-keep obligations of every loop on the merge of its back edges.
+func (fr *Frame) flushSteps() {
+	ex := fr.ex
+	byLoop := map[*Loop][]stepEdge{}
+	var ls []*Loop
+	for _, e := range fr.stepEdges {
+		if _, ok := byLoop[e.l]; !ok {
+			ls = append(ls, e.l)
+		}
+		byLoop[e.l] = append(byLoop[e.l], e)
+	}
+	sort.Slice(ls, func(i, j int) bool { return ls[i].ord < ls[j].ord })
+	for _, l := range ls {
+		es := byLoop[l]
+		conds := make([]string, len(es))
+		sts := make([]*State, len(es))
+		for i, e := range es {
+			conds[i] = e.cond
+			sts[i] = e.st
+		}
+		saved := fr.st
+		fr.st = ex.mergeStates(conds, sts)
+		phi := map[*ssa.Phi]Val{}
+		for ph := range es[0].phi {
+			vs := make([]Val, len(es))
+			for i, e := range es {
+				vs[i] = e.phi[ph]
+			}
+			phi[ph] = ex.mergeVals(conds, vs, ph.Type(), "step."+ph.Name())
+		}
+		any := ex.sc.Define("step.reach", SBool, mkOr(conds...))
+		fr.stepObligations(l, phi, any, "step-keep", ex.prog.pos(blockPos(l.head)), nil)
+		fr.st = saved
+	}
+	fr.stepEdges = nil
+}
+
 type candidate struct{ name, term string }
 
 func (fr *Frame) candidatesTop(l *Loop, phiVals map[*ssa.Phi]Val, st *State) []candidate {
-	if !fr.top || (fr.ex.fc != nil && fr.ex.fc.NoInfer) {
+	if !fr.top {
 		return nil
 	}
+	if fr.ex.fc != nil && fr.ex.fc.NoInfer {
+		// no general inference; but the function's own local cells (variables captured by a closure or
+		// whose address is taken: pointer- and scalar-typed Allocs) must survive the havoc at the loop
+		// head when the loop only allocates *new* cells of the same type (inlined callees with closures)
+		return fr.cellCandidates(l, st)
+	}
 	return fr.candidates(l, phiVals, st)
+}
+
+// cellCandidates: frameL candidates restricted to the heap keys of the top function's own scalar cells.
+func (fr *Frame) cellCandidates(l *Loop, st *State) []candidate {
+	ex := fr.ex
+	keys := map[string]bool{}
+	for _, b := range fr.fn.Blocks {
+		for _, in := range b.Instrs {
+			al, ok := in.(*ssa.Alloc)
+			if !ok {
+				continue
+			}
+			et := al.Type().Underlying().(*types.Pointer).Elem()
+			switch et.Underlying().(type) {
+			case *types.Pointer, *types.Basic, *types.Chan:
+				for _, lf := range leavesOf(et) {
+					k := "H." + typeKey(et) + "." + lf.Path
+					keys[k] = true
+				}
+			}
+		}
+	}
+	var out []candidate
+	stL := ex.loopRefs[l.head]
+	allocL := ex.get(stL, allocKey, SInt)
+	for _, k := range l.written {
+		if !keys[k] {
+			continue
+		}
+		srt, ok := ex.hsort[k]
+		if !ok || !srt.isArray() {
+			continue
+		}
+		name := fmt.Sprintf("L%d.frameL.%s", l.ord, k)
+		if ex.disabled[name] {
+			continue
+		}
+		cur := ex.get(st, k, srt)
+		ref := ex.get(stL, k, srt)
+		if cur == ref {
+			continue
+		}
+		t := fmt.Sprintf("(forall ((o Int)) (! (=> (and (<= %s o) (<= o %s)) (= (select %s o) (select %s o))) :pattern ((select %s o))))", objLowerBound(k, allocL), allocL, cur, ref, cur)
+		out = append(out, candidate{name, t})
+	}
+	return out
 }
 
 // candidates: inferred (Houdini) loop invariants. Each is assumed at the loop
